@@ -84,7 +84,8 @@ def poly_judge(c):
     # the structural part of the brute-force oracle (driver/d_spec.ml), which needs no enumeration: a panic is a panic at
     # any size; the kind of answer must fit the question; a certificate appears exactly when promised
     if o["kind"] == "panic":
-        return "panic"
+        # (the harness cuts a case after 3000 SAT calls: on a large framework that is no library panic)
+        return None if "sat-call-cap-exceeded" in o.get("msg", "") else "panic"
     if o["kind"] == "noext" and (q != "SE" or sem != "ST"):
         return "bad poly-no-extension-reported-by-a-semantics-that-always-has-one"
     if o["kind"] == "ext" and q != "SE":
